@@ -158,6 +158,12 @@ def make_cfgs(ctx, n, flavour):
                           consider_weather=(flavour == "c08" and k % 2 == 0))
         if k % 3 == 1 and "P_fix" not in [p["name"] for p in w["programs"]]:
             w["programs"] = w["programs"] + [{"name": "P_fix", "methods": ["FIX", "OGI_FU2"]}]
+        if ctx.quick and w["n_sims"] > 3:
+            # the "sims-batch" tag (6 / 7 simulations) has its own configuration in the thorough tier; in
+            # quick the all-tags draw is kept inside the time budget
+            w["n_sims"] = 3
+            w["wide_applied"] = [dict(a, value=3, capped_in_quick=True) if a["path"][-1] == "n_sims" else a
+                                 for a in w.get("wide_applied", [])]
         w["_verif_seed"] = seed
         w["_wide"] = True
         cfgs.append(w)
